@@ -286,6 +286,23 @@ class FilesLeg(object):
             return Failure("directives %r, input %r" % (db.directives, case["directives"]), sig={"kind": "directives"})
         snap1 = dbsnap.snapshot(db)
         printed = [str(f) for f in db.all_features()]
+        # a full iteration is not disturbed by other queries made while it is under way, and
+        # printing the same objects again gives the same lines
+        it = db.all_features()
+        got = []
+        for k, f in enumerate(it):
+            got.append(f)
+            if k == 0:
+                list(db.features_of_type(f.featuretype))
+                db[f.id]
+            elif k == 1:
+                db.count_features_of_type()
+                list(db.children(f.id))
+        if [str(f) for f in got] != printed:
+            return Failure("an iteration interleaved with other queries yields %d lines that differ from a plain iteration (%d lines)"
+                           % (len(got), len(printed)), sig={"kind": "interleaved-iteration"})
+        if [str(f) for f in got] != printed:
+            return Failure("printing the same features twice gives different lines", sig={"kind": "second-print"})
 
         # (3) close and reopen
         if not case["memory"]:
